@@ -8,7 +8,7 @@ Open Scope N_scope.
 Theorem C16_help_rows :
   forall (cfg : pconfig) (root : command) (r : rt) (t : str) (rows : list hrow),
          write_help_rows cfg root r = Ok (t, rows) -> rows = help_visible_rows root r.
-Proof. exact C16_help_rows_exact. Qed.
+Proof. exact @C16_help_rows_exact. Qed.
 Print Assumptions C16_help_rows.
 
 Theorem C16_nothing_hidden :
@@ -30,7 +30,7 @@ Theorem C16_nothing_hidden :
           exists sc : command,
             In sc (cmd_subs (help_innermost root r)) /\
             c_name (cmd_info sc) = n /\ c_hidden (cmd_info sc) = false).
-Proof. exact C16_hidden_never_listed. Qed.
+Proof. exact @C16_hidden_never_listed. Qed.
 Print Assumptions C16_nothing_hidden.
 
 Theorem C16_everything_visible :
@@ -49,21 +49,21 @@ Theorem C16_everything_visible :
          (forall sc : command,
           In sc (cmd_subs (help_innermost root r)) ->
           c_hidden (cmd_info sc) = false -> In (HCmd (c_name (cmd_info sc))) (help_visible_rows root r)).
-Proof. exact C16_help_complete. Qed.
+Proof. exact @C16_help_complete. Qed.
 Print Assumptions C16_everything_visible.
 
 (* a masked default's real value never appears in the help *)
 Theorem C16_masked_default_help :
   forall (cfg : pconfig) (r1 r2 : rt) (o : opt) (ns envns : list str) (g : group) (a : align),
          o_mask o <> [] -> help_option cfg r1 o ns envns g a = help_option cfg r2 o ns envns g a.
-Proof. exact C16_mask_help_any. Qed.
+Proof. exact @C16_mask_help_any. Qed.
 Print Assumptions C16_masked_default_help.
 
 Theorem C16_masked_default_man :
   forall (cfg : pconfig) (o o' : opt) (ns envns : list str) (g : group),
          opt_eq_except_default o o' ->
          o_mask o <> [] -> man_option cfg o ns envns g = man_option cfg o' ns envns g.
-Proof. exact C16_mask_man. Qed.
+Proof. exact @C16_mask_man. Qed.
 Print Assumptions C16_masked_default_man.
 
 Theorem C16_man_rows_exact :
@@ -72,6 +72,51 @@ Theorem C16_man_rows_exact :
          flat_map (man_group_block cfg c)
            (filter (fun gc : group * list str * list str => group_show_in_help (fst (fst gc)))
               (cmd_group_ctxs c)).
-Proof. exact C16_man_rows. Qed.
+Proof. exact @C16_man_rows. Qed.
 Print Assumptions C16_man_rows_exact.
+
+(* ---- added by bin/mkprops (batch 2) ---- *)
+From GoFlags Require Import Base.Str Base.Utf8 Golib.Strings Golib.Strconv Model.Types Model.Tag Model.Scan Model.Lookup Model.Convert Model.State Model.Closest Model.Help Model.Parse Model.Ini Model.Complete.
+From GoFlags Require Import Proofs.ContextSpec.
+
+(* the usage line names exactly the non-hidden subcommands, sorted (or the word command when there are more than three) *)
+Theorem C16_usage_line_lists_visible_commands :
+  forall c : command,
+         let names := usage_cmd_names c in
+         let co := if c_sub_optional (cmd_info c) then s2l "[" else s2l "<" in
+         let cc := if c_sub_optional (cmd_info c) then s2l "]" else s2l ">" in
+         usage_cmds c false = [] /\
+         (cmd_subs c = [] -> usage_cmds c true = []) /\
+         (cmd_subs c <> [] ->
+          (Datatypes.length (visible_cmds c) <= 3)%nat ->
+          usage_cmds c true = s2l " " ++ co ++ join names (s2l " | ") ++ cc) /\
+         (cmd_subs c <> [] ->
+          (3 < Datatypes.length (visible_cmds c))%nat ->
+          usage_cmds c true = s2l " " ++ co ++ s2l "command" ++ cc) /\
+         names = map (fun sc : command => c_name (cmd_info sc)) (sorted_visible_cmds c) /\
+         Datatypes.length names = Datatypes.length (visible_cmds c) /\
+         Permutation.Permutation names (map (fun sc : command => c_name (cmd_info sc)) (visible_cmds c)) /\
+         Sorted.StronglySorted (fun x y : str => str_ltb y x = false) names /\
+         (forall nm : str,
+          In nm names <->
+          (exists sc : command,
+             In sc (cmd_subs c) /\ c_hidden (cmd_info sc) = false /\ nm = c_name (cmd_info sc))).
+Proof. exact @C16_usage_lists_visible_commands. Qed.
+Print Assumptions C16_usage_line_lists_visible_commands.
+
+Theorem C16_usage_line_no_hidden_command :
+  forall (c : command) (nm : str),
+         In nm (usage_cmd_names c) ->
+         exists sc : command, In sc (cmd_subs c) /\ c_hidden (cmd_info sc) = false /\ c_name (cmd_info sc) = nm.
+Proof. exact @C16_usage_no_hidden_command. Qed.
+Print Assumptions C16_usage_line_no_hidden_command.
+
+Theorem C16_usage_line_hidden_not_listed :
+  forall c hc : command,
+         In hc (cmd_subs c) ->
+         (forall sc : command,
+          In sc (cmd_subs c) -> c_name (cmd_info sc) = c_name (cmd_info hc) -> c_hidden (cmd_info sc) = true) ->
+         ~ In (c_name (cmd_info hc)) (usage_cmd_names c).
+Proof. exact @C16_usage_hidden_not_listed. Qed.
+Print Assumptions C16_usage_line_hidden_not_listed.
 
